@@ -102,6 +102,7 @@ type genesis struct {
 	// lookup anchors of work reports against it
 	withAncestry bool
 	sharedAuthorizers bool
+	specialKeys       int // storage entries whose state key has a chosen second octet
 	specialIDs   int // services whose identifier comes from the pool of special magnitudes / octet patterns
 }
 
@@ -198,12 +199,12 @@ func mkGenesis(t *sim.Tape) *genesis {
 	// service identifiers of every magnitude and octet pattern: state keys interleave the identifier's octets
 	// with hash octets (255 makes a service's storage keys look like service-info keys up to the trailing
 	// octets), and code that derives cache keys or orderings from an identifier must not depend on its size
-	idPool := []types.ServiceID{255, 0, 1, 256, 0xFF00, 0xFFFF, 65536, 0x00FF00FF, 0xFF0000FF, 0x00200001, 0x9C000004, 0xFFFFFFFE, 0xFFFFFFFF, 254}
+	idPool := []types.ServiceID{255, 0, 1, 11, 16, 0x00010203, 256, 0xFF00, 0xFFFF, 65536, 0x00FF00FF, 0xFF0000FF, 0x00200001, 0x9C000004, 0xFFFFFFFE, 0xFFFFFFFF, 254}
 	oddIDs := t.Prob(2, 3, "odd_service_ids")
 	for i := 0; i < nSvc; i++ {
 		id := types.ServiceID(70000 + 11*i)
 		if oddIDs && t.Prob(2, 3, "odd_service_id") {
-			k := t.Pick([]int{6, 1, 1, 1, 1, 1, 1, 1, 1, 1, 1, 1, 1, 1}, "service_id_from_pool")
+			k := t.Pick([]int{6, 1, 1, 2, 2, 1, 1, 1, 1, 1, 1, 1, 1, 1, 1, 1, 1}, "service_id_from_pool")
 			for tries := 0; tries < len(idPool); tries++ {
 				dup := false
 				for _, x := range g.svcIDs {
@@ -260,6 +261,19 @@ func mkGenesis(t *sim.Tape) *genesis {
 		nStorage := t.Choose(3, "nstorage")
 		for k := 0; k < nStorage; k++ {
 			ac.StorageDict[fmt.Sprintf("key-%d", k)] = types.ByteSequence(fmt.Sprintf("value-%d-%d", id, k))
+		}
+		// a storage entry whose STATE key has a chosen second octet (0x00 / 0xff: with a small first octet such a key
+		// looks like the key of a state component up to the following octets); the storage key is found by search
+		if t.Prob(1, 3, "storage_key_with_special_octet") {
+			want := []byte{0x00, 0xff, 0x00}[t.Choose(3, "special_octet")]
+			for n := 0; n < 4000; n++ {
+				sk := fmt.Sprintf("special-%d", n)
+				if kv := merklization.WrapEncodeDelta2KeyVal(id, types.ByteSequence(sk), nil); kv.Key[1] == want {
+					ac.StorageDict[sk] = types.ByteSequence(fmt.Sprintf("v%d", n))
+					g.specialKeys++
+					break
+				}
+			}
 		}
 		nSolicited := t.Range(1, 4, "nsolicited")
 		for k := 0; k < nSolicited; k++ {
